@@ -328,6 +328,15 @@ func runC11RefusedThenBack(t *testing.T, how string) CaseOut {
 		}
 		stall := make(chan struct{})
 		m.sess["v>s0"].stall = stall
+		// the node has something to send on that session (another neighbour's update to relay): its writer is now stuck
+		// in the stalled write, so whatever is queued behind it — the reject message — has to wait
+		pg := m.attach("v", "g0")
+		pg.inject(mkRoute(wireRoute{NodeID: "g", UpdateID: "g-1", UpdateEpoch: 60, UpdateSequence: 1, Connections: map[string]float64{"v": 1}, ForwardingNode: "g"}))
+		synctest.Wait()
+		pg.inject(mkRoute(wireRoute{NodeID: "g", UpdateID: "g-2", UpdateEpoch: 60, UpdateSequence: 2, Connections: map[string]float64{"v": 1}, ForwardingNode: "g"}))
+		synctest.Wait()
+		time.Sleep(300 * time.Millisecond)
+		synctest.Wait()
 		switch how {
 		case "cost-change":
 			p0.inject(upd(3, map[string]float64{"v": 7}, "r"))
@@ -382,7 +391,7 @@ func runC11RefusedThenBack(t *testing.T, how string) CaseOut {
 		if !p1.isClosed() && !p2.isClosed() && !m.sentReject("v", "s2") {
 			out.violate("admit:duplicate-id-session-kept", "%s: a third session announcing r was admitted next to the open second one", ctx)
 		}
-		out.Outcome = "refused-then-back: " + how
+		out.Outcome = fmt.Sprintf("refused-then-back: %s (old session refused=%v closed=%v)", how, m.sentReject("v", "s0"), p0.isClosed())
 		m.end()
 	})
 	return out
